@@ -1,6 +1,6 @@
 SPECIFICATION Spec
 CONSTANTS
-  LeafIds = {"n1", "n0", "nhex", "nexp", "nfrac", "ninf", "nnan", "ndur", "ndur2", "s1", "s2", "s3", "foo", "bar", "colon", "foo_a", "foo_ab", "foo_nre", "foo_ul", "sel_n", "sel_u", "sel_e", "kw_sum", "kw_off", "kw_start", "kw_by", "time", "pi", "startf", "stepf"}
+  LeafIds = {"n1", "n0", "nhex", "nexp", "nfrac", "ninf", "nnan", "ndur", "ndur2", "s1", "s2", "s3", "foo", "bar", "colon", "foo_a", "foo_ab", "foo_nre", "foo_ul", "sel_n", "sel_u", "sel_e", "sel_ne", "kw_sum", "kw_off", "kw_start", "kw_by", "time", "pi", "startf", "stepf"}
   UnOps = {"+", "-"}
   CallFs = {"rate", "abs", "scalar", "vector", "clamp_min", "round", "day_of_week", "histogram_quantile", "label_join", "count_over_time"}
   AggOps = {"sum", "avg", "topk", "bottomk", "count_values", "quantile", "limitk", "limit_ratio", "group"}
